@@ -588,6 +588,109 @@ def split_tuples(B):
     return len(todo)
 
 
+TOTAL_ORDER_TYPES = ("u8", "u16", "u32", "u64", "u128", "usize", "i8", "i16", "i32", "i64", "i128", "isize", "std::time::Duration",
+                     "std::time::Instant", "tokio::time::Instant")
+
+
+def select_to_minmax(B):
+    """`if a < b { t = b } else { t = a }` (any of < <= > >=, either arm order) is `t = max(a, b)` resp. `min`: a clamp written with
+    comparisons reads like one written with std::cmp::min / max.  Only for totally ordered types, where the two agree on every value."""
+    n = 0
+    for ai, A in enumerate(B.blocks):
+        t = A["term"]
+        if t is None:
+            continue
+        P_ = Q_ = None
+        op = None
+        sw = None
+        if t["k"] == "call" and str(t["callee"].get("decl") or "").startswith("std::cmp::PartialOrd::") and len(t["args"]) == 2 and \
+                len(t["dest"]) == 1 and isinstance(t.get("t"), int):
+            op = t["callee"]["decl"].rsplit("::", 1)[-1]
+            ty = (t["callee"].get("gargs") or ["?"])[0]
+            if op not in ("lt", "le", "gt", "ge") or ty not in TOTAL_ORDER_TYPES:
+                continue
+            refs = {}
+            for st in A["stmts"]:
+                rv = st.get("rv")
+                if rv and rv["k"] == "ref" and len(st["p"]) == 1:
+                    refs[st["p"][0]] = tuple(rv["place"])
+            a0 = t["args"][0].get("m") or t["args"][0].get("c")
+            a1 = t["args"][1].get("m") or t["args"][1].get("c")
+            if not (a0 and a1 and len(a0) == 1 and len(a1) == 1 and a0[0] in refs and a1[0] in refs):
+                continue
+            P_, Q_ = refs[a0[0]], refs[a1[0]]
+            S = B.blocks[t["t"]]
+            if S["stmts"] or S["term"] is None or S["term"]["k"] != "switch":
+                continue
+            sw = S["term"]
+            d = sw["discr"].get("m") or sw["discr"].get("c")
+            if d != tuple(t["dest"]):
+                continue
+        elif t["k"] == "switch" and A["stmts"]:
+            st = A["stmts"][-1]
+            rv = st.get("rv")
+            d = t["discr"].get("m") or t["discr"].get("c")
+            if not (rv and rv["k"] == "bin" and rv["op"] in ("Lt", "Le", "Gt", "Ge") and d == tuple(st["p"]) and len(st["p"]) == 1):
+                continue
+            pa = rv["a"].get("c") or rv["a"].get("m")
+            pb = rv["b"].get("c") or rv["b"].get("m")
+            if not (pa and pb) or B.locals[pa[0]].get("ty") not in TOTAL_ORDER_TYPES or len(pa) != 1 or len(pb) != 1:
+                continue
+            op, ty, P_, Q_, sw = rv["op"].lower(), B.locals[pa[0]].get("ty"), tuple(pa), tuple(pb), t
+        else:
+            continue
+        if sw.get("targets") is None or len(sw["targets"]) != 1 or sw["targets"][0][0] != 0:
+            continue
+        F, T_ = B.blocks[sw["targets"][0][1]], B.blocks[sw["otherwise"]]
+
+        def single_copy(blk):
+            if len(blk["stmts"]) != 1 or blk["term"] is None or blk["term"]["k"] != "goto":
+                return None
+            st = blk["stmts"][0]
+            rv = st.get("rv")
+            if not (rv and rv["k"] == "use" and len(st["p"]) == 1):
+                return None
+            src = rv["op"].get("c") or rv["op"].get("m")
+            return (st["p"][0], tuple(src), blk["term"]["t"]) if src else None
+        ct, cf = single_copy(T_), single_copy(F)
+        if not ct or not cf or ct[0] != cf[0] or ct[2] != cf[2] or {ct[1], cf[1]} != {P_, Q_} or P_ == Q_:
+            continue
+        p_smaller_when_true = op in ("lt", "le")
+        picks_q_when_true = ct[1] == Q_
+        # true & p smaller & pick q -> larger -> max;  true & p smaller & pick p -> min;  true & p larger & pick p -> max; ...
+        is_max = (p_smaller_when_true and picks_q_when_true) or (not p_smaller_when_true and not picks_q_when_true)
+        name = "std::cmp::max" if is_max else "std::cmp::min"
+        newt = {"k": "call", "callee": {"decl": name, "resolved": name, "gargs": [ty], "trait": None, "local": False},
+                "args": [{"c": P_}, {"c": Q_}], "dest": (ct[0],), "t": ct[2], "sp": t.get("sp"), "exp": False}
+        if t.get("unwind") is not None:
+            newt["unwind"] = t["unwind"]
+        if t["k"] == "switch":
+            A["stmts"] = A["stmts"][:-1]
+        A["term"] = newt
+        n += 1
+    if n:
+        # the arms that were folded away must not keep defining the variable
+        seen, todo = set(), [0]
+        while todo:
+            x = todo.pop()
+            if x in seen:
+                continue
+            seen.add(x)
+            tx = B.blocks[x]["term"]
+            if tx is not None:
+                todo.extend(_succs(tx))
+                if tx.get("unwind") is not None and isinstance(tx.get("unwind"), int):
+                    todo.append(tx["unwind"])
+        for i, blk in enumerate(B.blocks):
+            if i not in seen and not blk.get("cleanup"):
+                blk["stmts"] = []
+                blk["term"] = {"k": "unreachable"}
+        B._names = None
+        B._cfg = None
+        B._defs = None
+    return n
+
+
 def thread_jumps(B, max_threads=40):
     """Constant jump threading, so that inlining a helper that returns a constant (or a constant-tagged value) on each of its paths
     restores the dominance facts of the un-extracted code: when a block assigns a known value to a local and the blocks that
@@ -841,6 +944,10 @@ def inline_program(P):
         for fid in list(bodies):
             if fid not in changed and len(bodies[fid].blocks) < 900:
                 changed[fid] = _clone_body(bodies[fid])
+    for fid, B in changed.items():
+        k = select_to_minmax(B)
+        if k:
+            log.append("%s: %d comparison-and-pick diamond(s) read as min/max" % (fid, k))
     for fid, B in changed.items():
         k = split_tuples(B)
         if k:
